@@ -132,9 +132,13 @@ def H_plain_fault(ctx, cfg):
     kinds = [404, 403, 500, 503, "conn"]
     ctx.assume(z3.And(fi.e >= 0, fi.e < len(kinds)))
     kind = kinds[fi.__index__()]
-    server.plan = {server.requests: kind}
-    ctx.input("case", [name, str(kind)])
-    ctx.sample(dict(op=name, fault=kind))
+    pi = SInt.var("persistent", "int")
+    ctx.assume(z3.And(pi.e >= 0, pi.e <= 1))
+    persistent = bool(pi.__index__())
+    server.plan = {"from": (server.requests, kind)} if persistent else {server.requests: kind}
+    ctx.input("case", [name, str(kind), persistent])
+    ctx.sample(dict(op=name, fault=kind, persistent=persistent))
+    local = fa.FileAccessor("/mfs/ds", flat=True, gzip=cfg["gzip"])
     try:
         r = call()
     except acc_mod.DataAccessError:
@@ -145,10 +149,13 @@ def H_plain_fault(ctx, cfg):
             raise
         ctx.fail("fault-surfaced-as-other-exception", detail=f"{name} with {kind}: {type(e).__name__}: {e}")
         return
-    if name == "file_exists" and kind == 404:
-        ctx.prove(r is False, "404-on-probe-means-absent")
+    # returned normally (e.g. after an internal retry): it must be the right answer, never the error page
+    if name == "file_exists":
+        ctx.prove((r is False) if (kind == 404 and persistent) else (r is True or (kind == 404 and r is False)),
+                  "probe-result-consistent-with-server", detail=str(r))
         return
-    ctx.fail("faulty-request-returned-normally", detail=f"{name} with {kind} returned {r!r}"[:200])
+    want = local.fetch_file("info") if name == "fetch_file" else local.fetch_chunk("k0", CHUNKS[1])
+    _eq(ctx, r, want, "data-returned-despite-fault-equals-local-bytes")
 
 
 def _sharded_dataset(ctx, env, sfa, cfg):
@@ -292,7 +299,8 @@ def _serve(directory):
             import os
             if H.fault and H.fault[0] == 0:
                 k = H.fault[1]
-                H.fault = None
+                if not (len(H.fault) > 2 and H.fault[2]):
+                    H.fault = None
                 if k in ("404", "403", "500", "503"):
                     self.send_error(int(k))
                     return
@@ -315,7 +323,18 @@ def _serve(directory):
             self.end_headers()
             self.wfile.write(data)
 
-        do_HEAD_orig = http.server.SimpleHTTPRequestHandler.do_HEAD
+        def do_HEAD(self):
+            if H.fault and H.fault[0] == 0:
+                k = H.fault[1]
+                if not (len(H.fault) > 2 and H.fault[2]):
+                    H.fault = None
+                if k in ("404", "403", "500", "503"):
+                    self.send_error(int(k))
+                    return
+                if k == "conn":
+                    self.connection.close()
+                    return
+            return http.server.SimpleHTTPRequestHandler.do_HEAD(self)
     srv = http.server.ThreadingHTTPServer(("127.0.0.1", 0), functools.partial(H, directory=directory))
     t = threading.Thread(target=srv.serve_forever, daemon=True)
     t.start()
@@ -328,8 +347,44 @@ def replay(cfg, cex):
     h = cfg["harness"]
     inp = cex["inputs"]
     acc_mod = load.mod("accessor")
-    if h in ("plain", "plain_fault", "dispatch"):
-        return True, "model-level counterexample for the plain HTTP accessor; see inputs (not replayed over a socket)"
+    if h == "dispatch":
+        return True, "dispatch table violated: " + str(inp["bad"][:2])
+    if h in ("plain", "plain_fault"):
+        fa = load.mod("file_accessor")
+        ha = load.mod("http_accessor")
+        with tempfile.TemporaryDirectory() as td:
+            ds = os.path.join(td, "ds")
+            w = fa.FileAccessor(ds, flat=True, gzip=False)     # served as plain static files
+            w.store_file("info", b'{"scales": []}', mime_type="application/json")
+            pls = [bytes(p) for p in inp["payloads"]]
+            for cc, pl in zip(CHUNKS, pls):
+                w.store_chunk(pl, "k0", cc)
+            srv, H = _serve(td)
+            try:
+                url = f"http://127.0.0.1:{srv.server_address[1]}/ds"
+                acc = ha.HttpAccessor(url)
+                if h == "plain":
+                    for cc, pl in zip(CHUNKS, pls):
+                        if acc.fetch_chunk("k0", cc) != pl:
+                            return True, f"chunk {cc} over HTTP differs from the stored bytes"
+                    return acc.fetch_file("info") != b'{"scales": []}', "info over HTTP"
+                name, kind, persistent = inp["case"]
+                H.fault = (0, kind, persistent)
+                try:
+                    if name == "fetch_file":
+                        got, want = acc.fetch_file("info"), b'{"scales": []}'
+                    elif name == "fetch_chunk":
+                        got, want = acc.fetch_chunk("k0", CHUNKS[1]), pls[1]
+                    else:
+                        got = acc.file_exists("info")
+                        want = False if (kind == "404" and persistent) else got
+                except acc_mod.DataAccessError:
+                    return False, "DataAccessError (allowed)"
+                except Exception as e:
+                    return True, f"{name} with fault {kind}: {type(e).__name__}: {e}"
+                return got != want, f"{name} during a {'persistent ' if persistent else ''}{kind} fault returned {got!r} instead of raising DataAccessError"
+            finally:
+                srv.shutdown()
     sfa = load.mod("sharded_file_accessor")
     sha = load.mod("sharded_http_accessor")
     grid = cfg["grid"]
